@@ -69,6 +69,11 @@ impl Submissions {
         // here because we're holding the submission lock and thus are the only
         // ones writing to it (but other threads and the kernel can read it).
         let new_tail = tail.wrapping_add(1);
+        #[cfg(a10_verif)]
+        crate::verif::sched_point(
+            crate::verif::STORE_SQ_TAIL,
+            shared.submissions_tail.as_ptr().addr(),
+        );
         unsafe { (*shared.submissions_tail.as_ptr()).store(new_tail, Ordering::Release) }
 
         log::trace!(submission:?, index, tail, new_tail; "queueing submission");
